@@ -160,16 +160,24 @@ type solver struct {
 
 // extra seeds raced in stage 2 (quantifier instantiation order is seed-sensitive)
 var seedSolvers = []solver{
-	{"z3-new/seed0", func(ms int, f string) []string { return []string{"z3-new", fmt.Sprintf("-T:%d", (ms+999)/1000), "smt.random_seed=0", f} }},
-	{"z3-new/seed3", func(ms int, f string) []string { return []string{"z3-new", fmt.Sprintf("-T:%d", (ms+999)/1000), "smt.random_seed=3", f} }},
+	{"z3-new/seed0", func(ms int, f string) []string {
+		return []string{"z3-new", fmt.Sprintf("-T:%d", (ms+999)/1000), "smt.random_seed=0", f}
+	}},
+	{"z3-new/seed3", func(ms int, f string) []string {
+		return []string{"z3-new", fmt.Sprintf("-T:%d", (ms+999)/1000), "smt.random_seed=3", f}
+	}},
 }
 
 var solvers = []solver{
-	{"z3-new", func(ms int, f string) []string { return []string{"z3-new", fmt.Sprintf("-T:%d", (ms+999)/1000), "smt.random_seed=7", f} }},
+	{"z3-new", func(ms int, f string) []string {
+		return []string{"z3-new", fmt.Sprintf("-T:%d", (ms+999)/1000), "smt.random_seed=7", f}
+	}},
 	{"cvc5", func(ms int, f string) []string {
 		return []string{"cvc5", fmt.Sprintf("--tlimit=%d", ms), "--lang=smt2", f}
 	}},
-	{"z3", func(ms int, f string) []string { return []string{"z3", fmt.Sprintf("-T:%d", (ms+999)/1000), "smt.random_seed=7", f} }},
+	{"z3", func(ms int, f string) []string {
+		return []string{"z3", fmt.Sprintf("-T:%d", (ms+999)/1000), "smt.random_seed=7", f}
+	}},
 }
 
 func runSolver(s solver, file string, timeout time.Duration) (status, output string, secs float64) {
